@@ -460,7 +460,7 @@ def derived(ctx, rng, mc):
     if kind in ("tri", "quad") or nt <= 12:
         ops.append("mirrored")
     if kind in ("tri", "tet") and nt <= 60:
-        ops += ["adaptive", "adaptive", "adaptive-twice"]
+        ops += ["adaptive", "adaptive", "adaptive-twice", "used-elsewhere"]
     if nt <= {"tri": 20, "quad": 16, "tet": 6, "hex": 3}[kind]:
         ops.append("uniform")
     op = ops[int(rng.integers(len(ops)))]
@@ -481,6 +481,13 @@ def derived(ctx, rng, mc):
             m2 = m.mirrored(tuple(n), tuple(np.asarray(m.p).min(1) - 0.25))
         elif op == "adaptive":
             m2 = m.refined(np.sort(rng.choice(nt, size=int(rng.integers(1, max(2, nt // 3))), replace=False)))
+        elif op == "used-elsewhere":
+            # the mesh itself, after other meshes were derived from it (its tables in use before and after)
+            _ = (m.facets, m.t2f, m.f2t)
+            m.oriented()
+            m.refined(np.array([0]))
+            m.translated(tuple([0.5] * d))
+            m2 = m
         elif op == "adaptive-twice":
             m2 = m.refined(rng.choice(nt, size=1))
             m2 = m2.refined(np.sort(rng.choice(m2.t.shape[1], size=2, replace=False)))
